@@ -150,6 +150,24 @@ def l_c04_bimaps(conv: Converter, p: str, u: str):
         assert rb[u] in b and b[rb[u]] == u
 
 
+@contract("api.Record.prefix_not_in_synonyms", props=["C04"], returns="list[str]")
+def c_prefix_not_in_synonyms(v: list[str], values: dict[str, str]):
+    """`values` stands for values.data, the fields validated before this one (prefix and uri_prefix are declared first).
+    The constructor model of the prover takes its rejection condition from this contract."""
+    requires("prefix" in values)
+    pure()
+    raises(ValueError, when=values["prefix"] in v)
+    ensures(result == v)
+
+
+@contract("api.Record.uri_prefix_not_in_synonyms", props=["C04"], returns="list[str]")
+def c_uri_prefix_not_in_synonyms(v: list[str], values: dict[str, str]):
+    requires("uri_prefix" in values)
+    pure()
+    raises(ValueError, when=values["uri_prefix"] in v)
+    ensures(result == v)
+
+
 @lemma("C04.record_validators", props=["C04"], bounded_only="pydantic runs the field validators; wiring is third-party")
 def l_c04_validators(p: str, u: str, ps: list, us: list):
     """A record can never list its own canonical prefix / URI prefix among its synonyms."""
